@@ -19,7 +19,7 @@ ENABLED = {"C04"}
 def alphabet(dt, rich):
     """Letters = ticks [dt, event, actions]; simplest first."""
     A = [L.tick(dt)]
-    evs = ["T21", "T22", "SUS", "OPN", "RM1", "RM2", "IP", "CL"] + (["T20", "T2x", "B", "IP0"] if rich else [])
+    evs = ["T21", "T22", "SUS", "OPN", "RM1", "RM2", "IP", "CL", "SUSRM1"] + (["T20", "T2x", "B", "IP0"] if rich else [])
     for e in evs:
         A.append(L.tick(dt, e))
     places = ["PBn", "XBp", "PB", "PL", "FOK", "PBm", "PLm", "PBv"] + (["TB", "XB", "XL", "PBp", "PBc", "P2"] if rich else [])
